@@ -655,7 +655,7 @@ def case_large(ctx, cls, rseed):
     r = ctx.rng("c02large", cls, rseed)
     K = S.formula_classes()[cls]
     # ---- Tseitin on larger graphs: a solution from a spanning forest, then perturbations
-    for n, m in ((12, 20), (20, 34), (30, 45)):
+    for n, m in ((12, 20), (20, 34), (30, 45), (63, 100), (64, 100), (65, 110), (128, 200), (257, 400)):      # also around powers of two
         E = random_graph(r, n, m)
         adj = adjacency(n, E)
         comps = components(n, E)
@@ -732,7 +732,7 @@ def case_large(ctx, cls, rseed):
             sampled_compare(ctx, "kcolor", desc, F, perturb(r, base, x.values(), 40), pred,
                             ("kcolor-large", n, k, functional, tuple(E), cls, rseed))
     # ---- cliques with a planted clique, unary and binary encodings
-    for n, k in ((10, 4), (13, 5), (17, 3)):
+    for n, k in ((10, 4), (13, 5), (17, 3), (33, 4), (65, 3)):
         clique = sorted(r.sample(range(1, n + 1), k))
         E = sorted(set(random_graph(r, n, 2 * n)) | {(u, v) for u, v in itertools.combinations(clique, 2)})
         sE = set(E)
@@ -809,7 +809,7 @@ def case_large(ctx, cls, rseed):
             pool.append({x[(u, p2[u - 1])] for u in range(1, n + 1)})
         sampled_compare(ctx, "iso", desc, F, pool, predi, ("iso-large", n, tuple(E1), tuple(perm), cls, rseed))
     # ---- dominating set / tiling on larger graphs: full assignments built from vertex sets
-    for n, m, d in ((10, 14, 4), (14, 20, 5)):
+    for n, m, d in ((10, 14, 4), (14, 20, 5), (33, 50, 8), (65, 100, 12)):
         E = random_graph(r, n, m)
         N = closed_nbhd(n, E)
         for alt in (False, True):
